@@ -10,6 +10,8 @@ def optional(cls):
         raise ProphyError("optional array not implemented")
     if cls._DYNAMIC:
         raise ProphyError("optional dynamic fields not implemented")
+    if cls._OPTIONAL:
+        raise ProphyError("optional of optional not implemented")
 
     class _optional(cls):
         pass
